@@ -611,9 +611,29 @@ def nontrivial(c, o):
 
 
 def tracking_oracle(c, o):
-    if c.get("op") in ("record", "msg"):
+    if c.get("op") in ("record", "msg") and not any(c is c0 for c0, _ in SEEN):
         SEEN.append((c, o))
     return oracle(c, o)
+
+
+def robust_pipeline(ctx, target, cases, *args, **kw):
+    """ctx.pipeline, repeated (after rebuilding this property's cone) when another check rebuilt
+    gen/Consts.vo between our proof build and our case evaluation (coqc then reports
+    'inconsistent assumptions over library V.gen.Consts'; the shared driver has no guard for that)"""
+    import copy as _copy
+    for attempt in range(3):
+        snap = (len(ctx.tie_breaks), len(ctx.impl_viol), _copy.deepcopy(ctx.cov), set(ctx._nontrivial))
+        ctx.pipeline(cases, *args, **kw)
+        new = ctx.tie_breaks[snap[0]:]
+        if attempt < 2 and any(k == "model-eval" and "inconsistent assumptions" in str(d) for k, _n, d in new):
+            del ctx.tie_breaks[snap[0]:]
+            del ctx.impl_viol[snap[1]:]
+            ctx.cov = snap[2]
+            ctx._nontrivial = snap[3]
+            ctx.log("gen/Consts.vo was rebuilt by another check meanwhile: rebuilding %s and repeating the run" % target)
+            ctx.coq_make([target])
+            continue
+        return
 
 
 def run(ctx):
@@ -630,9 +650,10 @@ def run(ctx):
            "Chunk::{serialize,deserialize} == Header.{encode_record,decode_record,header,header_try_deserialize,from_record,"
            "decode_chunk} over Msgpack.{mp_encode,mp_decode_as}")
     if ctx.replay:
-        ctx.pipeline(ctx.corpus(), binary, oracle, model_term, IMPORTS, nontrivial=nontrivial, show=show, relation=rel, shard_size=60)
+        robust_pipeline(ctx, "props/C12.v", ctx.corpus(), binary, oracle, model_term, IMPORTS, nontrivial=nontrivial, show=show,
+                        relation=rel, shard_size=60)
         return
-    ctx.pipeline(ctx.corpus() + gen_records(ctx) + gen_messages(ctx), binary, tracking_oracle, model_term, IMPORTS,
-                 nontrivial=nontrivial, show=show, relation=rel, shard_size=30)
-    ctx.pipeline(gen_malformed(ctx) + gen_malformed_messages(ctx), binary, oracle, model_term, IMPORTS, nontrivial=nontrivial,
-                 show=show, relation=rel, shard_size=150)
+    robust_pipeline(ctx, "props/C12.v", ctx.corpus() + gen_records(ctx) + gen_messages(ctx), binary, tracking_oracle, model_term,
+                    IMPORTS, nontrivial=nontrivial, show=show, relation=rel, shard_size=30)
+    robust_pipeline(ctx, "props/C12.v", gen_malformed(ctx) + gen_malformed_messages(ctx), binary, oracle, model_term, IMPORTS,
+                    nontrivial=nontrivial, show=show, relation=rel, shard_size=150)
